@@ -55,6 +55,34 @@ claim("C10", "other",
       "rows is covered by C07/C08. The comparison must have the form len == / != len, otherwise the check fails closed.",
       "MIR dominators + operand-origin tracing + field-write census", "DESIGN.md section 4, C10")
 
+claim("C12", "other",
+      "Exhaustive over every From/Nullable/ValueType impl present in the all-features build (about 40 types), every tuple "
+      "arity 1..12 and every Value variant: variant pairing (one variant per type across From, null, try_from, array_type), "
+      "payload identity (only moves, boxing, deref and owned-copy conversions, or a reviewed foreign conversion, between the "
+      "argument and the payload and back), the Option<T> and Vec<T> wrappers, component order of tuples, diagonal as_null/"
+      "dummy_value. Identity data flow is value-independent, so this covers all values of each type.",
+      "Trusts the reviewed foreign conversions (uuid adapters, chrono fixed-offset rebuild) and Value equality (C18) used by "
+      "Option<T>::try_from; an impl of a shape the extractor does not recognise fails closed.",
+      "variant-pairing and dataflow census over rustc HIR (exhaustive over impls)", "DESIGN.md section 4, C12")
+
+claim("C15", "other",
+      "Proof-style over a finite obligation list: each of the 12 take(&mut self) functions returns a struct literal whose every "
+      "field is moved/copied from the same field of self (and, for query statements, left at Default so the remainder is "
+      "new()); Clone/PartialEq on the whole type closure of the statements are compiler-derived or reviewed; every such type is "
+      "Freeze and the shared identifier pointer is never mutated through; clear/reset functions write exactly one field.",
+      "Equality of rendering follows from equality of fields because renderers read nothing but the statement (C02.R4). "
+      "Derive expansions are trusted to be field-wise.",
+      "struct-literal/field-move census (HIR), derive census, trait-solver Freeze, MIR field-write census", "DESIGN.md section 4, C15")
+
+claim("C18", "other",
+      "In the hashable-value configuration: Value::eq is a diagonal total match (one arm per enabled variant, wildcard false), "
+      "Value::hash feeds the discriminant first and has an arm per variant without wildcard, and per variant the comparator "
+      "and the hasher are a coherent pair over the same payload type (==/.hash on non-float payloads; OrderedFloat on both "
+      "sides for floats; the same JSON rendering; element-wise f32 pair for vectors); no raw float comparison or bit hashing.",
+      "Trusts Eq/Hash coherence of std, ordered_float and the optional third-party payload types. Reflexivity/symmetry/"
+      "transitivity then follow per variant from the payload's own Eq.",
+      "match-arm census + resolved comparator/hasher pairing (HIR, type-directed)", "DESIGN.md section 4, C18")
+
 claim("C20", "proof",
       "Every reachable non-generic ADT and alias of the crate is Send and Sync in the thread-safe configuration; each "
       "obligation is discharged by rustc's own trait solver on the real build, with a control query in the configuration "
